@@ -9,7 +9,8 @@ from harness import gen_values as gv
 from harness import valcodec as vc
 
 STREAMS = ['wire-encode', 'wire-decode', 'padding-table', 'spec-vs-reference']
-THEOREMS = ['C02_alignTable', 'C02_padding', 'C02_encode', 'C02_decode', 'layout_fields', 'layout_elems',
+THEOREMS = ['C02_alignTable', 'C02_padding', 'C02_encode', 'C02_decode', 'C02_encode_conf', 'C02_encode_checked',
+            'C02_decode_dict', 'layout_dict_entry', 'layout_fields', 'layout_elems',
             'layout_array', 'layout_string', 'layout_signature', 'layout_variant', 'layout_struct',
             'layout_byte_order']
 TRUSTED_BASE = c01.TRUSTED_BASE + [
@@ -24,9 +25,11 @@ RULE = ('same type-directed generator as C01; encode direction: spellable spec v
 
 
 def pad_table_impl():
+    """pad[code](off) for the 17 type codes of the specification and for any further row of `dbus_types`."""
     from txdbus import marshal as m
     rows = []
-    for _, code, _ in m.dbus_types:
+    codes = list(ref.ALIGNMENT) + [c for _, c, _ in m.dbus_types if c not in ref.ALIGNMENT]
+    for code in codes:
         for off in range(64):
             try:
                 p = m.pad[code](off)
@@ -54,79 +57,96 @@ def run(ctx):
     for i, (code, off, res, padbytes) in enumerate(rows):
         ctx.case('padding-table', sample={'code': code, 'off': off})
         ctx.impl_trace()
-        want = ref.pad_len(code, off) if code in ref.ALIGNMENT else None
-        if want is None or res != 'ok %d' % want or any(padbytes):
-            ctx.violation('padding-rule', 'pad[%r](%d) is not %r zero bytes' % (code, off, want),
-                          inp={'code': code, 'off': off}, observed=res + ' ' + padbytes.hex(),
-                          expected='ok %r (alignment %r)' % (want, ref.ALIGNMENT.get(code)))
+        if code in ref.ALIGNMENT:
+            want = ref.pad_len(code, off)
+            if res != 'ok %d' % want or any(padbytes):
+                ctx.violation('padding-rule', 'pad[%r](%d) is not %r zero bytes' % (code, off, want),
+                              inp={'code': code, 'off': off}, observed=res + ' ' + padbytes.hex(),
+                              expected='ok %r (alignment %r)' % (want, ref.ALIGNMENT.get(code)))
+            if sout is not None and sout[i] != 'ok %d' % want:
+                ctx.disagree('spec-vs-reference', {'line': slines[i]}, sout[i], 'ok %d' % want)
+        else:
+            ctx.stat('padding:row-for-a-code-outside-the-specification')   # not judged: the statement is about the 17 codes
         if out is not None and out[i] != res:
             ctx.disagree('padding-table', {'line': lines[i]}, out[i], res)
-        if sout is not None and want is not None and sout[i] != 'ok %d' % want:
-            ctx.disagree('spec-vs-reference', {'line': slines[i]}, sout[i], 'ok %d' % want)
-    if sorted(codes) != sorted(ref.ALIGNMENT):
-        ctx.violation('padding-codes', 'dbus_types does not list exactly the 17 type codes',
-                      inp={'codes': codes}, observed=sorted(codes), expected=sorted(ref.ALIGNMENT))
-    ctx.note('padding-table: %d type codes x offsets 0..63 enumerated completely' % len(codes))
+    ctx.note('padding-table: the 17 type codes of the specification (+ %d further rows of dbus_types, not judged) x offsets '
+             '0..63 enumerated completely; any formula periodic in 8 is decided by offsets 0..63'
+             % len([c for c in codes if c not in ref.ALIGNMENT]))
 
     # ---- encode direction
-    n = ctx.scale(quick=1200, thorough=25000)
+    def encode_case(stream, tys, svs, top, offsets, initial):
+        sig = gv.render_all(tys)
+        ctx.case(stream, sample={'sig': sig, 'values': vc.to_line(top)}, nontrivial=bool(tys))
+        runs = [(le, off, ()) for le in (True, False) for off in offsets]
+        if initial and 'h' in sig:
+            runs += [(le, offsets[0], tuple(c01.INITIAL_FDS)) for le in (True, False)]
+        for le, off, init in runs:
+            want = ref.encode(tys, svs, off, le, fd_base=len(init))
+            r = c01.impl_marshal(sig, top, off, le, list(init))
+            ctx.impl_trace()
+            if r[0] != 'ok' or r[2] != want or r[1] != len(want):
+                if r[0] == 'ok' and r[1] == len(r[2]) and alternative_encoding(tys, svs, r[2], r[3], off, le):
+                    ctx.stat('encode:other-entry-order-or-descriptor-numbering')
+                    continue
+                ctx.violation(encode_key(r, want), 'marshal bytes differ from the DBus wire format',
+                              inp=c01.case_json(sig, top, off, le, init), observed=c01.canon_marshal(r),
+                              expected='ok %d %s' % (len(want), vc.bytes_hex(want)))
+        le, off = rng.random() < 0.5, rng.choice(offsets)
+        speclines.append('specenc %s %d %s %s' % (vc.str_hex(sig), off, 'L' if le else 'B', vc.to_line(top)))
+        specwant.append('ok ' + vc.bytes_hex(ref.encode(tys, svs, off, le)))
+        mbatch.append((sig, top, off, le, []))
+
+    n = ctx.scale(quick=900, thorough=25000)
     speclines, specwant, mbatch = [], [], []
     for _ in range(n):
         tys, svs, pvs, fds, expected = gv.gen_case(rng, depth=rng.choice([1, 2, 3, 3, 4]), max_n=4)
-        sig = gv.render_all(tys)
-        c01.stats_for(ctx, tys, pvs)
-        ctx.case('wire-encode', sample={'sig': sig, 'values': vc.to_line(list(pvs))}, nontrivial=bool(tys))
-        for le in (True, False):
-            for off in range(16):
-                want = ref.encode(tys, svs, off, le)
-                r = c01.impl_marshal(sig, pvs, off, le, [])
-                ctx.impl_trace()
-                if r[0] != 'ok' or r[2] != want or r[1] != len(want):
-                    if r[0] == 'ok' and r[1] == len(r[2]) and alternative_encoding(tys, svs, r[2], r[3], off, le):
-                        ctx.stat('encode:other-dict-entry-order')
-                        continue
-                    ctx.violation(encode_key(r, want), 'marshal bytes differ from the DBus wire format',
-                                  inp=c01.case_json(sig, pvs, off, le), observed=c01.canon_marshal(r),
-                                  expected='ok %d %s' % (len(want), vc.bytes_hex(want)))
-        le, off = rng.random() < 0.5, rng.randrange(16)
-        speclines.append('specenc %s %d %s %s' % (vc.str_hex(sig), off, 'L' if le else 'B', vc.to_line(list(pvs))))
-        specwant.append('ok ' + vc.bytes_hex(ref.encode(tys, svs, off, le)))
-        mbatch.append((sig, list(pvs), off, le, []))
+        top, spelling = gv.top_spelling(rng, pvs)
+        ctx.stat('variableList:' + spelling)
+        c01.stats_for(ctx, tys, top, svs)
+        encode_case('wire-encode', tys, svs, top, list(range(16)) + [rng.choice(c01.BIG_OFFSETS)], True)
+    nl = ctx.scale(quick=50, thorough=1500)
+    for i in range(nl):
+        kind, tys, svs = gv.gen_large_case(rng, gv.LARGE_KINDS[i % len(gv.LARGE_KINDS)] if i < 2 * len(gv.LARGE_KINDS) else None)
+        pvs, fds, expected = gv.spell_case(rng, tys, svs)
+        top, spelling = gv.top_spelling(rng, pvs)
+        ctx.stat('large:' + kind)
+        for t, sv in zip(tys, svs):
+            gv.value_stats(t, sv, ctx.stat)
+        ctx.stat('type-depth=%d' % max(gv.depth_of(t) for t in tys))
+        encode_case('wire-encode', tys, svs, top, rng.sample(range(16), 3) + [rng.choice(c01.BIG_OFFSETS)], False)
     out = ctx.model(speclines)
     for i, ln in enumerate(speclines):
         ctx.case('spec-vs-reference')
         if out is not None and out[i] != specwant[i]:
-            ctx.disagree('spec-vs-reference', {'line': ln}, out[i], specwant[i])
+            # also the certificate that the case lies inside the hypotheses of C02_encode_checked
+            ctx.disagree('spec-vs-reference', {'line': ln[:2000]}, out[i][:2000], specwant[i][:2000])
+        else:
+            ctx.stat('certified-inside-theorem-hypotheses')
     c01.check_marshal_batch(ctx, 'wire-encode', mbatch)
 
     # ---- decode direction: reference-encoded bytes, arbitrary variant typings
-    n = ctx.scale(quick=1200, thorough=25000)
-    speclines, specwant, ubatch = [], [], []
-    for _ in range(n):
-        tys = gv.gen_types(rng, rng.choice([1, 2, 3, 3]), 3)
-        if len(gv.render_all(tys)) > 255:
-            continue
-        svs = [gv.gen_spec_free(rng, t, 3) for t in tys]
+    def decode_case(tys, svs, offsets):
         sig = gv.render_all(tys)
         fds = []
         for t, s in zip(tys, svs):
             gv.collect_fds(t, s, fds)
         expected = [gv.expected_decoded(t, s) for t, s in zip(tys, svs)]
-        ctx.case('wire-decode', sample={'sig': sig, 'expected': vc.to_line(expected)}, nontrivial=bool(tys))
-        ctx.stat('decode:variant-free-typing' if 'v' in sig else 'decode:no-variant')
-        picks = [(le, off) for le in (True, False) for off in rng.sample(range(16), 2)]
+        ctx.case('wire-decode', sample={'sig': sig, 'expected': vc.to_line(expected)[:4000]}, nontrivial=bool(tys))
+        picks = [(le, off) for le in (True, False) for off in offsets]
         for le, off in picks:
             enc = ref.encode(tys, svs, off, le)
             data = c01.PREFIX[:off] + enc + c01.SUFFIX
             u = c01.impl_unmarshal(sig, data, off, le, fds)
             ctx.impl_trace()
             ok = u[0] == 'ok' and u[1] == len(enc) and c01.py_equal(expected, u[2])
+            if ok and c01.float_bits_differ(expected, u[2]):
+                ctx.stat('note:decoded-double-equal-but-other-bit-pattern')
             if not ok:
                 ctx.violation(decode_key(u, enc), 'unmarshal of a spec-conformant encoding does not return the value',
                               inp={'sig': sig, 'data': data.hex(), 'off': off, 'le': le, 'fds': vc.to_line(fds)},
-                              observed=c01.canon_unmarshal(u),
-                              expected='ok %d %s' % (len(enc), vc.to_line(expected)))
-        le, off = picks[0]
+                              observed=c01.canon_unmarshal(u)[:4000],
+                              expected=('ok %d %s' % (len(enc), vc.to_line(expected)))[:4000])
+        le, off = picks[rng.randrange(len(picks))]
         enc = ref.encode(tys, svs, off, le)
         data = c01.PREFIX[:off] + enc + c01.SUFFIX
         ubatch.append((sig, data, off, le, fds))
@@ -134,28 +154,53 @@ def run(ctx):
         rsv, rn = ref.decode(tys, data, off, le)
         speclines.append('specdec %s %d %s %s' % (vc.str_hex(sig), off, 'L' if le else 'B', vc.bytes_hex(data)))
         specwant.append('ok %d %s' % (rn, vc.to_line([gv.expected_decoded(t, s) for t, s in zip(tys, rsv)])))
+
+    n = ctx.scale(quick=700, thorough=20000)
+    speclines, specwant, ubatch = [], [], []
+    for _ in range(n):
+        d = rng.choice([1, 2, 3, 3, 4, 6])
+        tys = gv.gen_types(rng, min(d, 4), 3)
+        if len(gv.render_all(tys)) > 255:
+            continue
+        svs = [gv.gen_spec_free(rng, t, d) for t in tys]
+        for t, sv in zip(tys, svs):
+            gv.value_stats(t, sv, lambda k: ctx.stat('decode:' + k))
+        ctx.stat('decode:variant-free-typing' if 'v' in gv.render_all(tys) else 'decode:no-variant')
+        if ctx.tier == 'thorough':
+            offsets = list(range(16)) + [rng.choice(c01.BIG_OFFSETS)]
+        else:
+            offsets = rng.sample(range(16), 4) + [rng.choice(c01.BIG_OFFSETS)]
+        decode_case(tys, svs, offsets)
+    for i in range(nl):
+        kind, tys, svs = gv.gen_large_case(rng, gv.LARGE_KINDS[i % len(gv.LARGE_KINDS)] if i < 2 * len(gv.LARGE_KINDS) else None)
+        ctx.stat('decode-large:' + kind)
+        decode_case(tys, svs, rng.sample(range(16), 3) + [rng.choice(c01.BIG_OFFSETS)])
+    ctx.note('wire-decode: %s offsets per byte order and case' % ('all 16 + one of %r' % (c01.BIG_OFFSETS,)
+                                                                    if ctx.tier == 'thorough' else '4 of 0..15 + one larger'))
     out = ctx.model(speclines)
     for i, ln in enumerate(speclines):
         ctx.case('spec-vs-reference')
         if out is not None and out[i] != specwant[i]:
-            ctx.disagree('spec-vs-reference', {'line': ln}, out[i], specwant[i])
+            ctx.disagree('spec-vs-reference', {'line': ln[:2000]}, out[i][:2000], specwant[i][:2000])
     c01.check_unmarshal_batch(ctx, 'wire-decode', ubatch)
 
 
 def alternative_encoding(tys, svs, got, oob, off, le):
-    """The specification does not order the entries of a dict: bytes that the strict reference decoder reads
-    back as the same values up to the order of dict entries, and that are what the reference encoder
-    produces for the values in that order, are a correct encoding too."""
+    """Bytes other than the reference encoder's that are still THE encoding the specification defines for these
+    values: the specification does not order the entries of a dict and only calls a UNIX_FD "an index into the
+    out-of-band array".  Accepted iff the strict reference decoder reads the bytes back, re-encoding what it
+    read (same entry order, same indices) reproduces them byte for byte, and the values - indices resolved
+    through the descriptor list `marshal` returned - equal the input up to the order of dict entries."""
     try:
         dec, n = ref.decode(tys, c01.PREFIX[:off] + got, off, le)
-    except (ref.RefError, Exception):     # noqa: BLE001
+    except Exception:     # noqa: BLE001
         return False
     if n != len(got):
         return False
     try:
-        back = [_with_fds(t, s, oob) for t, s in zip(tys, dec)]
-        if ref.encode(tys, back, off, le) != got:
+        if ref.encode(tys, dec, off, le, raw_fds=True) != got:
             return False
+        back = [_with_fds(t, s, oob) for t, s in zip(tys, dec)]
         return [_norm(t, s) for t, s in zip(tys, back)] == [_norm(t, s) for t, s in zip(tys, svs)]
     except Exception:                     # noqa: BLE001
         return False
@@ -244,24 +289,63 @@ def replay(ctx, data, stream='replay'):
         except Exception as e:   # noqa: BLE001
             res, p = 'err ' + c01.exc_name(e), b''
         want = ref.pad_len(code, off) if code in ref.ALIGNMENT else None
-        if want is None or res != 'ok %d' % want or any(p):
+        if want is not None and (res != 'ok %d' % want or any(p)):
             ctx.violation('padding-rule', 'pad[%r](%d) is not %r zero bytes' % (code, off, want), inp=inp,
                           observed=res, expected='ok %r' % (want,))
         return
     if 'line' in inp:
         c01.replay_case(ctx, data, stream)
         return
-    # encode direction: {'sig','values','off','le'}
+    if 'bytes' in inp:
+        replay_vector(ctx, inp, stream)
+        return
+    # encode direction: {'sig','values','off','le'[, 'initial_fds']}
     sig, off, le = inp['sig'], inp['off'], inp['le']
     pvs = vc.from_line(inp['values'])
+    init = vc.from_line(inp['initial_fds']) if 'initial_fds' in inp else []
     tys = gv.parse_sig(sig)
     ctx.case(stream, sample=inp)
-    r = c01.impl_marshal(sig, pvs, off, le, [])
+    r = c01.impl_marshal(sig, pvs, off, le, list(init))
     svs = to_spec(tys, pvs)
-    want = ref.encode(tys, svs, off, le)
-    if r[0] != 'ok' or r[2] != want or r[1] != len(want):
+    want = ref.encode(tys, svs, off, le, fd_base=len(init))
+    if (r[0] != 'ok' or r[2] != want or r[1] != len(want)) and not (
+            r[0] == 'ok' and r[1] == len(r[2]) and alternative_encoding(tys, svs, r[2], r[3], off, le)):
         ctx.violation(encode_key(r, want), 'marshal bytes differ from the DBus wire format', inp=inp,
                       observed=c01.canon_marshal(r), expected='ok %d %s' % (len(want), vc.bytes_hex(want)))
+
+
+def replay_vector(ctx, inp, stream):
+    """A literal byte vector from outside this tree (the text of the DBus specification, a published capture,
+    or bytes worked out by hand from the rules): {'sig','values','off','le','bytes','source'}.  Checked against
+    the implementation (oracle: marshal produces the bytes, unmarshal returns the values), against the Python
+    reference codec and against the Lean spec - a third source for the two transcriptions of the specification."""
+    sig, off, le = inp['sig'], inp['off'], inp['le']
+    pvs = vc.from_line(inp['values'])
+    want = bytes.fromhex(inp['bytes'])
+    tys = gv.parse_sig(sig)
+    svs = to_spec(tys, pvs)
+    ctx.case(stream, sample={'sig': sig, 'source': inp.get('source', '')})
+    r = c01.impl_marshal(sig, pvs, off, le, [])
+    if r[0] != 'ok' or r[2] != want or r[1] != len(want):
+        ctx.violation(encode_key(r, want), 'marshal bytes differ from a published byte vector (%s)' % inp.get('source', ''),
+                      inp=inp, observed=c01.canon_marshal(r), expected='ok %d %s' % (len(want), vc.bytes_hex(want)))
+    data = c01.PREFIX[:off] + want + c01.SUFFIX
+    u = c01.impl_unmarshal(sig, data, off, le, [])
+    expected = c01.normalise(tys, pvs)
+    if not (u[0] == 'ok' and u[1] == len(want) and c01.py_equal(expected, u[2])):
+        ctx.violation(decode_key(u, want), 'unmarshal of a published byte vector does not return its values', inp=inp,
+                      observed=c01.canon_unmarshal(u), expected='ok %d %s' % (len(want), vc.to_line(expected)))
+    refb = ref.encode(tys, svs, off, le)
+    if refb != want:
+        ctx.disagree('spec-vs-reference', {'vector': inp.get('source', ''), 'sig': sig}, 'reference ' + refb.hex(), want.hex())
+    out = ctx.model(['specenc %s %d %s %s' % (vc.str_hex(sig), off, 'L' if le else 'B', vc.to_line(pvs)),
+                     'specdec %s %d %s %s' % (vc.str_hex(sig), off, 'L' if le else 'B', vc.bytes_hex(data))])
+    if out is not None:
+        if out[0] != 'ok ' + vc.bytes_hex(want):
+            ctx.disagree('spec-vs-reference', {'vector': inp.get('source', ''), 'op': 'specenc'}, out[0], 'ok ' + want.hex())
+        wantdec = 'ok %d %s' % (len(want), vc.to_line(expected))
+        if out[1] != wantdec:
+            ctx.disagree('spec-vs-reference', {'vector': inp.get('source', ''), 'op': 'specdec'}, out[1], wantdec)
 
 
 def _resolve(ty, exp, sv, fds):
